@@ -232,6 +232,15 @@ def sources(ctx, navis, rng, tmp):
                 ctx.violation('with the default fmt the name is not the file name (source kind %s)' % kind, desc, dict(name=n.name))
             if st == 'ok' and meta and str(n.id) != str(x.id):
                 ctx.violation('id (as text) is not restored from the header metadata (source kind %s)' % kind, desc, dict(id=n.id, want=x.id))
+        # a pattern with an IGNORED field ({}): '<name>_<anything>_<id>.swc'
+        d3 = os.path.join(tmp, 'src%d_ign' % ci)
+        os.makedirs(d3)
+        shutil.copy(p, os.path.join(d3, 'gamma%d_lPN_%d.swc' % (ci, 4711 + ci)))
+        for pat, want_id in (('{name}_{}_{id}.swc', str(4711 + ci)), ('{name}_{}_{id:int}.swc', 4711 + ci)):
+            st, n = guarded(lambda: navis.read_swc(d3, fmt=pat, parallel=False)[0])
+            if st != 'ok' or n.name != 'gamma%d' % ci or n.id != want_id:
+                ctx.violation('name/id are not parsed from the file name as a fmt pattern with an ignored field prescribes', dict(desc, fmt=pat, file='gamma%d_lPN_%d.swc' % (ci, 4711 + ci)),
+                              dict(name=getattr(n, 'name', None), id=getattr(n, 'id', None)) if st == 'ok' else n)
         st, n = guarded(lambda: navis.read_swc(z, fmt='{name}_{id:int}.swc', parallel=False)[0])
         if st != 'ok' or n.name != 'beta%d' % ci or n.id != 77:
             ctx.violation('name/id are not parsed from the file name inside a zip archive as the fmt pattern prescribes', desc, dict(name=getattr(n, 'name', None), id=getattr(n, 'id', None)) if st == 'ok' else n)
